@@ -132,5 +132,5 @@ def rule_bindorder(crate):
         else:
             out.violation(key, ff, ll, "%s must come before %s in the DefineFunction arm (frame layout: parameters, where-locals, body): a name would resolve to the wrong slot or not at all" % (a, b))
     out.analysed = {"define_variable_inits": len(init_blocks), "define_variable_binds": len(bind_blocks), "define_function_events": len(events)}
-    out.floor("define_function_events", len(events), 6)
+    out.floor("define_function_events", len(events), 5)
     return out
